@@ -5,10 +5,33 @@ package blowfish
 // Contracts for govc (/verif). Comments only. Trusted interface of the Blowfish primitives as used by
 // bcrypt_pbkdf: the cipher itself (32-bit operations, S-boxes) is not interpreted.
 
-//@ func NewSaltedCipher
+// C12 (part): the constructors accept exactly the documented key lengths - NewCipher 1 to 56 bytes,
+// NewSaltedCipher any non-empty key when a salt is given (bcrypt uses up to 72 bytes) and NewCipher's
+// range when the salt is empty. The key schedule (initCipher, ExpandKey, expandKeyWithSalt) is trusted.
+//@ func initCipher
 //@ trusted
+//@ note copies the initial P-array and S-boxes into *c: not verified
+//@ nonnil c
+//@ modifies *c
+
+//@ func expandKeyWithSalt
+//@ trusted
+//@ note salted key schedule: writes only *c; reads key and salt cyclically (needs both non-empty)
+//@ nonnil c
+//@ may_panic_when len(key) == 0 || len(salt) == 0
+//@ modifies *c
+
+//@ func NewCipher
+//@ props C12
 //@ fresh result0
-//@ ensures iff(result1 == nil, len(key) >= 1) && iff(result0 != nil, result1 == nil)
+//@ ensures iff(result1 == nil, 1 <= len(key) && len(key) <= 56) && iff(result0 != nil, result1 == nil)
+//@ canary ensures result1 != nil
+
+//@ func NewSaltedCipher
+//@ props C12 C19
+//@ fresh result0
+//@ ensures iff(result1 == nil, len(key) >= 1 && (len(salt) > 0 || len(key) <= 56)) && iff(result0 != nil, result1 == nil)
+//@ canary ensures result1 != nil
 
 //@ func ExpandKey
 //@ trusted
